@@ -60,7 +60,10 @@ CLAIMS = {
   "by, every literal [±]digits[.digits][e[±]digits] with any number of mantissa digits and an exponent below 100000 (0.1 is 1/10); theorem "
   "scan_exponent_guard: a longer exponent makes the scanner give up with nothing read (the guard of fix d278e6f is part of the model, so l_exp "
   "stays below 100000 on both sides); plus totality, consumption bound and absence of division by zero. Tied to /repo by differential testing of the exported scanner on grammar-derived literals, fractions, near-literals and "
-  "random strings. Partial: layout/keyword/default-bound rules of the readers are tied by the file-level stream (when present) but not proved.",
+  "random strings; theorem has_colon_spec: the LP reader's row-name test sees a ':' exactly when one occurs on the line before its end (comments cut off, nothing behind "
+  "the string terminator is looked at). File level: an independent LP generator and an independent MPS renderer (free N rows, dropped columns, RANGES on G/L/E rows with either "
+  "sign, every bound type, integer markers, OBJSENSE, second RHS/BOUNDS sets, $ comments, comments containing ':' and keywords) write known rational problems that the real readers must deliver exactly. "
+  "Partial: the section grammars of the readers above the lexical layer are tied by this file-level stream but not proved.",
   COMMON_NOTE + "Token-level reader semantics not proved.",
   "DESIGN.md C10", "Lean 4 proof over a model of the number scanner + model/implementation correspondence check"),
  "C14": ("proof",
@@ -163,7 +166,7 @@ CLAIMS = {
   "same class and the same value - for every pair of configurations, warm starts and repetitions at once, without enumerating them - and the "
   "session-model fact that a repeated solve of an unmodified object returns the stored status. Tied to /repo by driving the library over the "
   "product {QSexact_solver primal/dual, QSopt_primal, QSopt_dual} x 4x4 pricing rules x scaling x mpf precision x warm-start bases (incl. 50/100/150-"
-  "column LPs for partial pricing), passing every OPTIMAL/INFEASIBLE through the proved checkers and comparing all statuses and values with the "
+  "column LPs for partial pricing, and a sweep of thousands of small LPs with two-sided column bounds through mpq_QSopt_dual / _primal for the bound-flipping ratio tests), passing every OPTIMAL/INFEASIBLE through the proved checkers and comparing all statuses and values with the "
   "certified reference and with each other. Partial: definitiveness under every configuration is explored, not proved.",
   COMMON_NOTE + "As C03.", "DESIGN.md C04", "Lean 4 proof of uniqueness of certified answers + configuration-product exploration"),
  "C05": ("proof",
@@ -172,7 +175,7 @@ CLAIMS = {
   "problem exactly as it stands or survived only 'basis ok, cache ok' row deletions, that every other successful edit drops it, and that accessors "
   "fail without it; tied to /repo by comparing the session fields after every step of generated and bounded-exhaustive edit/solve histories, and by "
   "the oracle: every re-solve is compared with a fresh copy of the current problem solved from scratch and every OPTIMAL / every accessor value "
-  "between edit and solve goes through the proved checker certOK against the problem as it stands. Partial: the correctness of warm-started "
+  "between edit and solve goes through the proved checker certOK against the problem as it stands (served slacks and reduced costs must be the ones the served x and pi determine). Partial: the correctness of warm-started "
   "pivoting itself (LU reuse, retained norms) is explored through its results, not proved.",
   COMMON_NOTE + "The fresh copy is built from the library's own query dump (C06). Only well-formed edits (lower <= upper) are generated.",
   "DESIGN.md C05", "Lean 4 invariant proof over the session state machine + correspondence check with certificate oracle"),
